@@ -603,10 +603,12 @@ def _admix_zero(path):
 
 
 def _replay_nest(A, pa, B, pb, model, table):
-    """Evaluate both models numerically at the counter-model (or a default point) on a small grid."""
+    """Evaluate both models numerically at the counter-model (or default points) on a small grid.  A structural mismatch comes without a model of the
+    path condition, so several default points are tried - equal durations, durations increasing and decreasing in the order of the parameter list
+    (models branch on comparisons such as T < Ts), sizes all different - and the first one at which the two spectra differ is the witness."""
     try:
         import importlib, numpy
-        vals = {}
+        base = {}
         for n in table:
             v = None
             if model and n in model:
@@ -617,18 +619,17 @@ def _replay_nest(A, pa, B, pb, model, table):
                     v = None
             if v is None or not (1e-3 < abs(v) < 50) and not n.startswith('g'):
                 v = 0.3 if n in ('s', 'f') else (0.2 if n.startswith('T') else (0.7 if n.startswith('m') else (1.5 if n.startswith('nu') else -1.0)))
-            vals[n] = v
-
-        def ev(args):
-            out = []
-            for a in args:
-                if isinstance(a, z3.ExprRef):
-                    sub = [(z3.Real(k), z3.RealVal(repr(float(v)))) for k, v in vals.items()]
-                    r = z3.simplify(z3.substitute(a, *sub))
-                    out.append(float(r.numerator_as_long()) / float(r.denominator_as_long()))
-                else:
-                    out.append(float(a))
-            return out
+            base[n] = v
+        times = [n for n in table if n.startswith('T')]
+        sizes = [n for n in table if n.startswith('nu')]
+        cands = [dict(base)]
+        for order in (times, times[::-1]):
+            c = dict(base)
+            for r_, n in enumerate(order):
+                c[n] = 0.1 + 0.15 * r_
+            for r_, n in enumerate(sizes):
+                c[n] = 0.6 + 0.9 * r_
+            cands.append(c)
         fa, na = _locate(A)
         fb, nb = _locate(B)
         ma = importlib.import_module(fa[:-3].replace('/', '.'))
@@ -636,11 +637,26 @@ def _replay_nest(A, pa, B, pb, model, table):
         dim = 3 if A.startswith('p3') or A.startswith('d3') else (1 if A.startswith('d1') or na in ('equil', 'two_epoch_sel', 'three_epoch_sel', 'growth_sel', 'bottlegrowth_1d_sel') else 2)
         ns = (4,) * dim
         pts = 12
-        ra = getattr(ma, na)(ev(pa), ns, pts)
-        rb = getattr(mb, nb)(ev(pb), ns, pts)
-        err = float(numpy.ma.max(numpy.ma.abs(ra - rb) / (numpy.ma.abs(rb) + 1e-300)))
-        return dict(replayed=True, inputs=dict(A=A, paramsA=ev(pa), B=B, paramsB=ev(pb), ns=list(ns), pts=pts), max_rel_diff=err,
-                    postcondition_holds_natively=bool(err <= 1e-9))
+        res = None
+        for vals in cands:
+            def ev(args):
+                out = []
+                for a in args:
+                    if isinstance(a, z3.ExprRef):
+                        sub = [(z3.Real(k), z3.RealVal(repr(float(v)))) for k, v in vals.items()]
+                        r = z3.simplify(z3.substitute(a, *sub))
+                        out.append(float(r.numerator_as_long()) / float(r.denominator_as_long()))
+                    else:
+                        out.append(float(a))
+                return out
+            ra = getattr(ma, na)(ev(pa), ns, pts)
+            rb = getattr(mb, nb)(ev(pb), ns, pts)
+            err = float(numpy.ma.max(numpy.ma.abs(ra - rb) / (numpy.ma.abs(rb) + 1e-300)))
+            res = dict(replayed=True, inputs=dict(A=A, paramsA=ev(pa), B=B, paramsB=ev(pb), ns=list(ns), pts=pts), max_rel_diff=err,
+                       postcondition_holds_natively=bool(err <= 1e-9), points_tried=len(cands))
+            if not res['postcondition_holds_natively']:
+                break
+        return res
     except Exception as e:
         return dict(replayed=False, error=repr(e)[:400])
 
